@@ -1,11 +1,14 @@
 """C04 check configuration (see lib/props.py for the field meanings)."""
 
 PROP = {
-    "pkg": "internal/client",
-    "files": [
-        "client/c04_model_test.go",
+    "parts": [
+        {"name": "storage", "pkg": "internal/client", "files": ["client/c04_model_test.go",
         "client/c04_machine_test.go",
-        "client/c04_precedence_test.go",
+        "client/c04_precedence_test.go",],
+         "tests": [("TestVFC04Machine", (1000, 3500), {"steps": 40, "shards": (3, 16)}),
+                   ("TestVFC04Precedence", (6000, 25000), {"shards": (1, 16)})]},
+        {"name": "http", "pkg": "internal/home", "files": ["home/common_assembly_test.go", "home/c04_http_test.go"],
+         "tests": [("TestVFC04HTTP", (250, 1000), {"steps": 30, "shards": (1, 8)})]},
     ],
     "level": "exploration",
     "technique": "property-based testing (rapid): stateful machine over client.Storage against a reference model "
@@ -22,10 +25,6 @@ PROP = {
     "level_note": "Sequential behaviour of client.Storage only: the HTTP layer of package home "
                   "(/control/clients/*) is not driven, concurrency is C05's subject. Trusts net/netip for "
                   "network containment.",
-    "tests": [
-        ("TestVFC04Machine", (1000, 3500), {"steps": 40, "shards": (3, 16)}),
-        ("TestVFC04Precedence", (6000, 25000), {"shards": (1, 16)}),
-    ],
     "plain": [],
     "shards": (2, 16),
     "workers": (4, 16),
